@@ -15,7 +15,7 @@
 // ops:  n NewRow   q<k> NewRow(copy of detached #k)   e NewRow whose item assignment throws   f<k> NewRow(copy of #k) whose item copy throws   a<k> TryAdd   i<i>,<k> TryInsert
 //       p<i>,<k> TryUpdate(row i := detached #k)   x<i> Extract(i)   z<i> Extract(i, keepRowOrder=false)   r<i> Remove   c Clear
 //       d<k> destroy detached #k   m<k> move-construct + move-assign into the moved-from object   w<k>,<j> #k = move(#j) (old #k dies)
-//       y<k>,<j> swap   s<k> rewrite items   v move the TABLE into another object and back
+//       y<k>,<j> swap   s<k> rewrite items   v move the TABLE into another object and back   j<k> Remove(rowFilter)   k copy-construct the table
 #include "private_access.h"
 #include "momo/DataTable.h"
 #include <condition_variable>
@@ -325,6 +325,25 @@ static void runSeq(std::istringstream& is, const char* cfgName)
 			{
 				k %= det.size(); int id = ids.of(det[k].GetRaw());
 				Cfg::rewrite(det[k], k); emit("S" + S(id));
+			}
+			else if (c == 'j' && table.GetCount() > 0)
+			{	// Remove(rowFilter): every second row goes (pvRemove -> pvFilterRaws -> pvDestroyRaw: straight to the pool)
+				std::string ev = "Q"; std::set<const void*> gone; size_t idx = 0;
+				for (size_t i = 0; i < table.GetCount(); ++i) if (i % 2 == k % 2) { ev += (gone.empty() ? "" : ",") + S(ids.of(table[i].GetRaw())); gone.insert(table[i].GetRaw()); }
+				size_t removed = table.Remove([&] (typename Table::ConstRowReference ref) { (void)idx; return gone.count(ref.GetRaw()) != 0; });
+				emit(removed == gone.size() ? ev : "Q!");
+			}
+			else if (c == 'k')
+			{	// table copy construction (pvFill -> pvImportRaw -> pvCreateRaw): the copy has its OWN crew, list head and pool
+				bool ok = true;
+				{
+					Table copy(table);
+					ok = copy.GetCount() == table.GetCount() && copy.mCrew.mData != table.mCrew.mData
+						&& copy.mCrew.mData->freeRaws.load() == nullptr && copy.mRawMemPool.GetAllocateCount() == copy.GetCount();
+					if (copy.GetCount() > 0) { Row r = copy.Extract(0); ok = ok && r.mFreeRaws == &copy.mCrew.mData->freeRaws; }   // pushed onto the COPY's list
+					ok = ok && (copy.GetCount() + (copy.mCrew.mData->freeRaws.load() != nullptr ? 1 : 0)) == copy.mRawMemPool.GetAllocateCount();
+				}
+				emit(ok ? "-" : "K!");
 			}
 			else if (c == 'v')
 			{
